@@ -244,6 +244,74 @@ void from_float(sink& out, std::uint64_t salt)
     }
 }
 
+// class template argument deduction (C15's CTAD clause; the only deduction guides of the library are fraction's):
+// cnl::fraction{x} for floating-point x -- the deduced component type must hold every integral initializer of the
+// format exactly, and the result obeys C17's contract for that component type -- and for integer x (n/1 in the
+// integer's own type), and the implicit two-argument guide.
+template<class Fl>
+void ctad_float(sink& out, std::uint64_t salt)
+{
+    using F = decltype(cnl::fraction{Fl{}});
+    int id = add_inst(out, ev("Inst").str("kind", "FrCtad").str("op", "ctad_float").raw("lt", desc<Fl>()).raw("rt", fdesc_of<F>()).raw("res_t", fdesc_of<F>()));
+    std::vector<Fl> xs;
+    int const p = std::numeric_limits<Fl>::digits;
+    for (int k = 0; k <= p; ++k) {
+        Fl b = std::ldexp(static_cast<Fl>(1), k);
+        for (Fl x : {b, b - 1, b + 1, b - 2, b / 2 + 1, b + b / 2, b - b / 4 + 1}) {
+            xs.push_back(x);
+            xs.push_back(-x);
+        }
+    }
+    for (int k = 0; k <= 40; ++k) {
+        xs.push_back(static_cast<Fl>(k));
+        xs.push_back(static_cast<Fl>(k) / 8);
+        xs.push_back(-static_cast<Fl>(k) / 16);
+        xs.push_back(static_cast<Fl>(k) / 10);
+        xs.push_back(static_cast<Fl>(k) / 3);
+    }
+    rng r(salt);
+    for (int k = 0; k < (thorough() ? 2000 : 200); ++k) {
+        // random integral values of every bit length up to the significand width, and random fractions
+        int bits = 1 + static_cast<int>(r.g() % static_cast<unsigned>(p));
+        Fl m = std::floor(std::ldexp(static_cast<Fl>(r.g() >> 1) / static_cast<Fl>(1ULL << 63), bits));
+        xs.push_back((r.g() & 1) ? m : -m);
+        xs.push_back(std::ldexp(static_cast<Fl>(r.g() >> 11) / static_cast<Fl>(1ULL << 53), static_cast<int>(r.g() % 40) - 20));
+    }
+    for (Fl x : xs) {
+        if (!(x == x) || x - x != 0) {
+            continue;
+        }
+        F f = fzero<F>();
+        auto o = guarded([&] { f = cnl::fraction{x}; }, 2000);
+        out.put(ev("FrCtad").num("i", id).raw("x", enc_float(x)).raw("res", o == "ok" ? fraw(f) : "[[0],[0]]").str("out", o).s);
+    }
+}
+
+template<class I>
+void ctad_int(sink& out, std::uint64_t salt)
+{
+    using F = decltype(cnl::fraction{I{}});
+    using F2 = decltype(cnl::fraction{I{}, I{}});
+    int id = add_inst(out, ev("Inst").str("kind", "FrCtadInt").str("op", "ctad_int").raw("lt", desc<I>()).raw("rt", fdesc_of<F>()).raw("res_t", fdesc_of<F>()));
+    int id2 = add_inst(out, ev("Inst").str("kind", "FrCtadInt").str("op", "ctad_pair").raw("lt", desc<I>()).raw("rt", fdesc_of<F2>()).raw("res_t", fdesc_of<F2>()));
+    auto vs = operands<I>(2, salt, 0);
+    for (I x : vs) {
+        F f = fzero<F>();
+        auto o = guarded([&] { f = cnl::fraction{x}; });
+        out.put(ev("FrCtadInt").num("i", id).raw("l", enc(x)).raw("r", enc(I(1))).raw("res", o == "ok" ? fraw(f) : "[[0],[0]]").str("out", o).s);
+    }
+    std::size_t k = 0;
+    for (I x : vs) {
+        I y = vs[(k++ * 7 + 3) % vs.size()];
+        if (y == 0) {
+            continue;
+        }
+        F2 f = fzero<F2>();
+        auto o = guarded([&] { f = cnl::fraction{x, y}; });
+        out.put(ev("FrCtadInt").num("i", id2).raw("l", enc(x)).raw("r", enc(y)).raw("res", o == "ok" ? fraw(f) : "[[0],[0]]").str("out", o).s);
+    }
+}
+
 int main(int argc, char** argv)
 {
     if (argc < 2) {
@@ -269,6 +337,15 @@ int main(int argc, char** argv)
         from_float<double, std::int64_t>(out, 24);
         from_float<long double, std::int64_t>(out, 25);
         from_float<float, std::int8_t>(out, 26);
+        ctad_float<float>(out, 31);
+        ctad_float<double>(out, 32);
+        ctad_float<long double>(out, 33);
+        ctad_int<std::int8_t>(out, 34);
+        ctad_int<std::int16_t>(out, 35);
+        ctad_int<std::int32_t>(out, 36);
+        ctad_int<std::int64_t>(out, 37);
+        ctad_int<std::uint32_t>(out, 38);
+        ctad_int<cnl::int128_t>(out, 39);
     }
     std::fprintf(stderr, "events=%llu insts=%d\n", out.n, out.ninst);
     return 0;
